@@ -55,8 +55,30 @@ def compile_break(ctx, proof, errors, caps):
     return failing
 
 
+def own_leaf_only(proof):
+    """vlib.coq_prove regenerates the leaves of EVERY domain; a leaf of another header that does not
+    translate is that domain's business: C17 depends on GenAnyData.v only"""
+    foreign = [e for e in proof['errors'] if e.startswith('tie A (leafgen)')]
+    if not foreign:
+        return proof
+    import json
+    import sys
+    rc, out, err = vlib.sh([sys.executable, os.path.join(vlib.ROOT, 'tools', 'leafgen.py'), '--json', '--only', 'anydata'], timeout=600)
+    try:
+        info = json.loads(out)
+    except ValueError:
+        info = {'failed': ['leafgen crashed: ' + (out + err)[-300:]]}
+    proof['errors'] = [e for e in proof['errors'] if not e.startswith('tie A (leafgen)')]
+    if rc != 0 or info.get('failed'):
+        proof['errors'].insert(0, 'tie A (leafgen) could not translate: %s' % json.dumps(info.get('failed')))
+    else:
+        proof['foreign_leaf_failures_ignored'] = foreign
+    proof['ok'] = not proof['errors'] and proof['discharged'] == proof['obligations']
+    return proof
+
+
 def run(ctx):
-    proof = vlib.coq_prove(ctx, FILES)
+    proof = own_leaf_only(vlib.coq_prove(ctx, FILES))
     caps = ad.CAPS if ctx.tier == 'thorough' else ad.CAPS
     bins, errors = ad.build(ctx, caps)
     sha = vlib.sha(os.path.join(vlib.REPO, 'include/eventpp/utilities/anydata.h'))
@@ -66,6 +88,7 @@ def run(ctx):
         'trusted_base': TRUSTED, 'theorems': proof['names'], 'axioms_reported': proof['axioms'],
         'closed_under_global_context': proof['closed'], 'proof_errors': proof['errors'],
         'generated_leaves': proof.get('leaves', {}), 'header_sha': sha,
+        'foreign_leaf_failures_ignored': proof.get('foreign_leaf_failures_ignored', []),
     }
     ctx.assumptions += [
         'sequential use of one AnyData / one queue (no concurrent access to the same AnyData)',
@@ -98,7 +121,7 @@ def run(ctx):
                              'compile_probe_failures': [(c, s) for c, s, _ in failing]})
         return
     metas = {c: ad.meta(b) for c, b in bins.items()}
-    n = ctx.budget(1200, 40000)
+    n = ctx.budget(2500, 60000)
     cases, ncorpus, hist = gen_cases(ctx, metas, n)
     if proof['ok']:
         stats, model, texts = ad.correspond(ctx, bins, cases, what='AnyData')
